@@ -17,6 +17,8 @@ hand-written part: shims, spec functions, lemmas, impl headers).
     //@  loop <k>                         followed by invariant / decreases / ensures lines for loop ordinal k
     //@  before "<anchor>" [#n]           followed by proof-only lines inserted before the n-th occurrence of anchor
     //@  keep_dassert | drop_dassert <k>  (default keep) drop the k-th debug_assert with a reason recorded
+    //@  cut "<from>" .. "<until>" => "<r>" R8: delete the body text from the unique anchor <from> (inclusive) up to the
+                                          unique anchor <until> (exclusive) and put <r> there; lines + sha256 of the cut recorded
     //@end
     //@global-subst "<a>" => "<b>"        applied to every extracted text (count recorded)
 
@@ -76,6 +78,7 @@ class FnDirective:
     loops: dict[int, LoopSpec] = field(default_factory=dict)
     before: list[tuple[str, int, list[tuple[str, int]]]] = field(default_factory=list)
     drop_dassert: dict[int, str] = field(default_factory=dict)
+    cuts: list[tuple[str, str, str, int]] = field(default_factory=list)
     external_body: bool = False
     no_vacuity: bool = False
 
@@ -299,6 +302,11 @@ def parse_template(path: str):
                         raise LostAnchor(f'template line {tl2}: before "<anchor>" [#n]')
                     section = 'before'
                     cur_before = (_unesc(m.group(1)), int(m.group(2) or 0))
+                elif key == 'cut':
+                    m = re.match(r'^"((?:[^"\\]|\\.)*)"\s*\.\.\s*"((?:[^"\\]|\\.)*)"\s*=>\s*"((?:[^"\\]|\\.)*)"\s*$', arg.strip())
+                    if not m:
+                        raise LostAnchor(f'template line {tl2}: cut "<from>" .. "<until>" => "<replacement>"')
+                    d.cuts.append((_unesc(m.group(1)), _unesc(m.group(2)), _unesc(m.group(3)), tl2))
                 elif key == 'drop_dassert':
                     w2 = arg.split(None, 1)
                     d.drop_dassert[int(w2[0])] = w2[1] if len(w2) > 1 else 'unsupported construct'
@@ -613,10 +621,21 @@ def rewrite_body(rf: RepoFile, it: Item, d: FnDirective, rules: dict, info: FnIn
         edits.append(Edit(pos, pos, ins, ('tmpl', plines[0][1] if plines else d.tline, 'hint')))
         rules['hints'] = rules.get('hints', 0) + 1
 
+    # R8 cut ranges are located first: text inside a cut is invisible to substitutions
+    cut_ranges: list[tuple[int, int]] = []
+    for frm, until, repl, tl in d.cuts:
+        occ_a = [m.start() for m in re.finditer(re.escape(frm), text) if m.start() >= body_lo]
+        if len(occ_a) != 1:
+            raise LostAnchor(f'{rf.rel}: {d.selector}: cut start anchor {frm!r} found {len(occ_a)} times (need 1)')
+        occ_b = [m.start() for m in re.finditer(re.escape(until), text) if m.start() > occ_a[0]]
+        if len(occ_b) < 1:
+            raise LostAnchor(f'{rf.rel}: {d.selector}: cut end anchor {until!r} not found after start')
+        cut_ranges.append((occ_a[0], occ_b[0]))
     # substitutions (body or anywhere in item text after signature)
     subst_ranges: list[tuple[int, int]] = []
     for a, b, tl, many in d.subst:
-        occ = [m.start() for m in re.finditer(re.escape(a), text) if m.start() >= body_lo]
+        occ = [m.start() for m in re.finditer(re.escape(a), text) if m.start() >= body_lo
+               and not any(lo <= m.start() < hi for lo, hi in cut_ranges)]
         if (not many and len(occ) != 1) or (many and not occ):
             raise LostAnchor(f'{rf.rel}: {d.selector}: R6 substitution {a!r} matched {len(occ)} times')
         for p in occ:
@@ -624,7 +643,21 @@ def rewrite_body(rf: RepoFile, it: Item, d: FnDirective, rules: dict, info: FnIn
             subst_ranges.append((p, p + len(a)))
             edits.append(Edit(p, p + len(a), b + pad, None))
         rules['R6'] = rules.get('R6', 0) + len(occ)
-    # an R6 substitution wins over automatic rewrites (R2/R3/R5) that fall inside the substituted text
+    # R8 region cuts
+    for (frm, until, repl, tl), (lo, hi) in zip(d.cuts, cut_ranges):
+        dropped = text[lo:hi]
+        nl = '\n' * max(0, dropped.count('\n') - repl.count('\n'))
+        subst_ranges.append((lo, hi))
+        edits.append(Edit(lo, hi, repl + nl, None))
+        rules['R8'] = rules.get('R8', 0) + 1
+        rules.setdefault('R8_lines', []).append(
+            f'{rf.rel}:{rf.line_of(base + lo)}-{rf.line_of(base + hi)} cut from {d.selector} '
+            f'({dropped.count(chr(10))} lines, sha256 {hashlib.sha256(dropped.encode()).hexdigest()[:16]}) -> {repl!r}')
+        # debug_asserts inside a cut region are dropped with it
+        for da in info.dasserts:
+            if rf.line_of(base + lo) <= da['line'] < rf.line_of(base + hi) and not da['dropped']:
+                da['dropped'] = 'inside R8 cut region'
+    # an R6 substitution / R8 cut wins over automatic rewrites (R2/R3/R5) that fall inside the replaced text
     edits = [e for e in edits if (e.start, e.end) in subst_ranges or
              not any(lo <= e.start and e.end <= hi for lo, hi in subst_ranges)]
     return edits
